@@ -156,7 +156,9 @@ func blockedFrame(dump string) string {
 	return ""
 }
 
-const stallCPUSeconds = 600.0
+// stallCPUSeconds: CPU time one case may burn before the watchdog stops the worker (quick tier: 300 s; the
+// thorough tier has single cases that legitimately take a minute or two and keeps 600 s).
+var stallCPUSeconds = 600.0
 
 func driverMain(args []string) int {
 	if len(args) < 1 {
@@ -266,8 +268,10 @@ func driverMain(args []string) int {
 		launch(sr)
 	}
 	wallLimit := 3 * time.Hour
+	stallCPUSeconds = 300.0
 	if tier == "thorough" {
 		wallLimit = 10 * time.Hour
+		stallCPUSeconds = 600.0
 	}
 	tick := time.NewTicker(2 * time.Second)
 	defer tick.Stop()
